@@ -12,10 +12,10 @@ import (
 
 	ammtypes "github.com/elys-network/elys/x/amm/types"
 	aptypes "github.com/elys-network/elys/x/assetprofile/types"
-	oracletypes "github.com/elys-network/elys/x/oracle/types"
 	ctypes "github.com/elys-network/elys/x/commitment/types"
 	lptypes "github.com/elys-network/elys/x/leveragelp/types"
 	mctypes "github.com/elys-network/elys/x/masterchef/types"
+	oracletypes "github.com/elys-network/elys/x/oracle/types"
 	paramtypes "github.com/elys-network/elys/x/parameter/types"
 	tokenomicstypes "github.com/elys-network/elys/x/tokenomics/types"
 )
